@@ -198,9 +198,9 @@ theorem pos_objField (s : SchemaD) (name : String) (t : TI) :
     (tiEnter s (.objField name) t).pos = objFieldPos s t.pos name := by
   simp only [tiEnter, TI.enterObjectField, TI.pos, objFieldPos, TI.inputType]
   cases hm : TI.peek t.inputStack with
-  | none => simp [TI.inputType, TI.inputValueDef, peek_cons]
+  | none => simp [TI.inputValueDef, peek_cons]
   | some ty =>
-    by_cases hi : isInputObject s ty.base = true <;> simp [hi, TI.inputType, TI.inputValueDef, peek_cons]
+    by_cases hi : isInputObject s ty.base = true <;> simp [hi, TI.inputValueDef, peek_cons]
 
 theorem pos_argument (s : SchemaD) (a : Arg) (t : TI) :
     (tiEnter s (.argument a) t).pos = argPos s t.view a.name := by
